@@ -364,6 +364,12 @@ def jobs(tier):
 
     js.append(Job("contract:transformed", C16.job_transformed))
     js += [Job("contract:" + j.name, j.fn, **j.params) for j in C16_radial.jobs(tier)]
+    # the clip box recorded for the glyph must not cut what these paints draw (kernel of C05)
+    from harness import C05
+
+    for upem, quant in ((1000, None), (1024, 7)):
+        js.append(Job(f"colr_ufo[PQ,upem={upem},q={quant}]", C05.job_colr_ufo, order="PQ", upem=upem, quant=quant))
+    js.append(Job("bounds[PaintTransform,square,step=20]", C05.job_bounds, template="PaintTransform", outline="square", factor=20))
     return js
 
 
